@@ -166,8 +166,7 @@ class Session:
         self.cfg = cfg
         self.size = size
         self.scr, self.out = make_screen(colors, False, bce)
-        for e in PALETTE:
-            self.scr.register_palette_entry(*e)
+        self.scr.register_palette(e for e in PALETTE)  # an Iterable: a one-shot generator here
         self.scr.start()
         self.term = Term(size[0], size[1], codec=enc, bce=True)
         self.term.feed(self.out.take())
